@@ -479,6 +479,9 @@ func (w *c7World) check() {
 func init() {
 	Register(&Scenario{
 		Prop: "C07", Name: "close-cancel", PointInject: true,
+		// generation draws in order: inject1 step, inject1 kind, "second injection?", inject2 step-1, inject2 kind
+		PairPrefix: func(i, j int64, k1, k2 int) []uint32 { return []uint32{uint32(i), uint32(k1), 1, uint32(j - 1), uint32(k2)} },
+		PairKinds:  [][2]int{{0, 0}, {0, 2}, {0, 3}, {0, 4}, {2, 0}, {3, 0}, {4, 0}, {2, 3}},
 		Setup: func(r *Run) simrt.Config {
 			c := BaseConfig()
 			c.Horizon = 10 * time.Minute
